@@ -1208,6 +1208,94 @@ class H4chain(Case):
         return obs
 
 
+def _obj_sqrt(x, dtype=None, **kw):
+    if dtype is object:
+        vals = [S.of(float(np.sqrt(float(v)))) for v in x]
+        out = np.empty(len(vals), dtype=object)
+        for i, v in enumerate(vals):
+            out[i] = v
+        return out
+    return np.sqrt(x, dtype=dtype, **kw) if dtype is not None else np.sqrt(x, **kw)
+
+
+def _scale_inplace(arr, factor):
+    """caller-side in-place modification of an array it was handed: arr *= factor (symbolic factor when the array
+    can hold it, else -- concrete dtype handed out in the symbolic run -- a fixed number)"""
+    try:
+        arr *= factor
+    except (TypeError, ValueError, sym.SymbolicBranch):
+        arr *= 0.25
+
+
+class H4ops(Case):
+    """oqupy.operators: every public constructor returns a FRESH array: two calls give distinct objects that share
+    no memory (concrete facts), and after the caller scaled the first result in place by a symbolic factor a later
+    call still returns the documented matrix (solver: for all factors).  Superoperator helpers: result shares no
+    memory with the argument and the argument is untouched."""
+    functions = ("operators.sigma", "operators.spin_dm", "operators.identity", "operators.create", "operators.destroy",
+                 "operators.commutator", "operators.acommutator", "operators.left_super", "operators.right_super",
+                 "operators.left_right_super", "operators.preparation")
+    stubs = ("np.sqrt(range, dtype=object) in oqupy.operators -> exact square roots as symbols",)
+    id = "H4/operators_fresh_results"
+    bounds = {"sigma": 6, "spin_dm": 9, "identity/create/destroy": "n in {2,3}"}
+
+    def __init__(self):
+        from vf.env import NpProxy
+        self.env = {"extra": {"oqupy.operators.np": NpProxy({"sqrt": _obj_sqrt})}}
+
+    def run(self, inp):
+        import oqupy.operators as ops
+        f = inp.real("f", lo=2, hi=3)
+        C = inp.const
+        i_ = 1j
+        pauli = {"id": [[1, 0], [0, 1]], "x": [[0, 1], [1, 0]], "y": [[0, -i_], [i_, 0]], "z": [[1, 0], [0, -1]],
+                 "+": [[0, 1], [0, 0]], "-": [[0, 0], [1, 0]]}
+        half = 0.5
+        states = {"up": [[1, 0], [0, 0]], "z+": [[1, 0], [0, 0]], "down": [[0, 0], [0, 1]], "z-": [[0, 0], [0, 1]],
+                  "x+": [[half, half], [half, half]], "x-": [[half, -half], [-half, half]],
+                  "y+": [[half, -half * i_], [half * i_, half]], "y-": [[half, half * i_], [-half * i_, half]],
+                  "mixed": [[half, 0], [0, half]]}
+
+        def lowering(n):       # documented bosonic annihilation operator: <k-1| a |k> = sqrt(k)
+            m = np.zeros((n, n))
+            for k in range(1, n):
+                m[k - 1, k] = np.sqrt(k)
+            return m
+        ctors = [("sigma(%r)" % k, (lambda k=k: ops.sigma(k)), v) for k, v in pauli.items()]
+        ctors += [("spin_dm(%r)" % k, (lambda k=k: ops.spin_dm(k)), v) for k, v in states.items()]
+        for n in (2, 3):
+            ctors.append(("identity(%d)" % n, (lambda n=n: ops.identity(n)), np.identity(n)))
+            ctors.append(("destroy(%d)" % n, (lambda n=n: ops.destroy(n)), lowering(n)))
+            ctors.append(("create(%d)" % n, (lambda n=n: ops.create(n)), lowering(n).T))
+        obs = []
+        for name, fn, doc in ctors:
+            a = fn()
+            b = fn()
+            obs.append(Ob.holds("%s: two calls give distinct arrays sharing no memory" % name,
+                                a is not b and not np.shares_memory(a, b), key="fresh_result"))
+            obs.append(Ob.eq("%s: documented matrix" % name, np.array(a, copy=True), C(np.array(doc, dtype=complex)), key="fresh_result"))
+            _scale_inplace(a, f)
+            obs.append(Ob.eq("%s: after the caller scaled an earlier result in place, a new call returns the documented matrix" % name,
+                             fn(), C(np.array(doc, dtype=complex)), key="fresh_result"))
+            obs.append(Ob.eq("%s: ... and the second earlier result is unaffected" % name, b, C(np.array(doc, dtype=complex)), key="fresh_result"))
+        # helpers taking an operator
+        A = inp.arr("A", (2, 2), cplx=True)
+        B = inp.arr("B", (2, 2), cplx=True)
+        A0, B0 = A.copy(), B.copy()
+        helpers = [("commutator", lambda: ops.commutator(A)), ("acommutator", lambda: ops.acommutator(A)), ("left_super", lambda: ops.left_super(A)),
+                   ("right_super", lambda: ops.right_super(A)), ("left_right_super", lambda: ops.left_right_super(A, B)),
+                   ("preparation", lambda: ops.preparation(A))]
+        for name, fn in helpers:
+            r1 = fn()
+            ref = np.array(r1, copy=True)
+            obs.append(Ob.holds("%s: result shares no memory with its arguments" % name,
+                                not np.shares_memory(r1, A) and not np.shares_memory(r1, B), key="fresh_result"))
+            _scale_inplace(r1, f)
+            obs.append(Ob.eq("%s: a new call after the caller scaled an earlier result" % name, fn(), ref, key="fresh_result"))
+        obs.append(Ob.eq("operator arguments untouched", np.array([A, B]), np.array([A0, B0]), key="fresh_result"))
+        return obs
+
+
 class H4tebd(Case):
     """the same ChainControl (two controls stacked on one site/step/side) and process tensors used in two
     PtTebd computations == the computation with fresh copies (real PtTebd on a two-site chain without
@@ -1400,7 +1488,7 @@ def cases(tier):
     for cls in ("system", "tdsystem", "tdsystem_field", "parameterized", "meanfield"):
         cs += [H3ctor(cls, m) for m in ("assign", "append", "pop")]
     cs.append(H3ctor("chain", "assign"))
-    cs += [H3guess(), H4par(), H3bathdyn("occupation"), H3bathdyn("correlation"), H4chain()]
+    cs += [H3guess(), H4par(), H3bathdyn("occupation"), H3bathdyn("correlation"), H4chain(), H4ops()]
     if th:
         cs += [H4ctl("control", 3), H4ctl("chain_control", 3), H4tebd(2)]
     # H4
